@@ -80,7 +80,8 @@ def _summarise(traces, verd, keep):
 def _g_shard(args):
     """Worker: parse a byte range of the TLC state dump, render / record / validate its well-formed programs."""
     path, lo, hi, seed, shard, limit = args
-    from harness import c16_scope as H
+    from harness import c16_scope as H, tlc
+    tlc._SCRATCH = None  # forked from the parent: use an own scratch directory (cleanup() must not remove the parent's)
     FST, filt = _fst(), _filt()
     with open(path, 'rb') as f:
         f.seek(lo)
@@ -125,7 +126,6 @@ def _g_shard(args):
             res['clauses'][c] = res['clauses'].get(c, 0) + n
         res['bad'] += part['bad']
         res['tlc'].append(st)
-    from harness import tlc
     tlc.cleanup()
     return res
 
@@ -133,7 +133,8 @@ def _g_shard(args):
 def _v_shard(args):
     """Worker: record and validate a list of (name, source) programs."""
     items, shard, seed = args
-    from harness import c16_corpus as C
+    from harness import c16_corpus as C, tlc
+    tlc._SCRATCH = None
     FST = _fst()
     traces, skipped, nnodes = [], 0, 0
     for k, (name, src) in enumerate(items, 1):
@@ -161,7 +162,6 @@ def _v_shard(args):
             res['bad'].append((dict(info, facts={f'{s}': part['detail'].get((t['id'], s), {}) for s, _, _ in bad}), bad))
         res['samples'] = [{'program': traces[0]['name'], 'nodes': len(traces[0]['steps'][0]['nodes']),
                            'scopes': len(traces[0]['steps']) - 1}]
-    from harness import tlc
     tlc.cleanup()
     return res
 
@@ -313,3 +313,59 @@ def corpus_items_all():
         quick = False
         seed = 0
     return corpus_items(_C())
+
+
+def selftest(ctx):
+    """Binding demonstration: corrupt one recorded field of an accepted trace; TLC must reject it naming the right clause."""
+    from harness import c16_scope as H, c16_corpus as C
+    P = {'sc': [{'kind': 'module', 'site': 0}, {'kind': 'function', 'site': 1}],
+         'st': [{'c': 1, 'k': 'def', 'n': 'p', 'ch': 2}, {'c': 2, 'k': 'default', 'n': 'u', 'ch': 0},
+                {'c': 2, 'k': 'param', 'n': 'u', 'ch': 0}, {'c': 2, 'k': 'load', 'n': 'p', 'ch': 0}]}
+    good = H.record_program(P, 0, _fst(), _filt())
+    good.update(id=1, mode='prog')
+    cases = [(1, 'accepted as recorded', None, lambda t: None)]
+
+    def drop_walk(t):  # the enclosing scope's walk no longer yields the default
+        w = t['steps'][1]['walks'][0]
+        w['sites'] = [i for i in w['sites'] if i != 2]
+
+    def add_store(t):  # the function reports the default's name as its own store
+        for y in t['steps'][2]['syms']:
+            if y['cat'] == 'store':
+                y['sites'] = sorted(set(y['sites']) | {2})
+
+    def flip_flag(t):  # symtable row of the parameter loses its flag
+        for tab in t['steps'][0]['tabs']:
+            for row in tab['rows']:
+                if 'par' in row['f']:
+                    row['f'] = ['ref']
+    cases += [(2, 'walk of module drops the default', 'Walk.all.missing', drop_walk),
+              (3, 'function stores the default name', 'Symbols.store.extra', add_store),
+              (4, 'symtable parameter flag flipped', 'Spec.Rows', flip_flag)]
+    traces = []
+    for tid, _, _, mut in cases:
+        t = json.loads(json.dumps({k: v for k, v in good.items() if k != 'src'}))
+        t['id'] = tid
+        mut(t)
+        traces.append(t)
+    src = 'def f(a, b=d):\n    x = [y for y in a]\n    return lambda q=x: q\n'
+    steps = C.record_corpus(src, _fst())
+    cgood = {'id': 5, 'mode': 'corpus', 'steps': steps}
+    c1 = json.loads(json.dumps(cgood))
+    c1['id'] = 6
+    c1['steps'][0]['yb'][0] = []  # nobody yielded the Module node
+    c2 = json.loads(json.dumps(cgood))
+    c2['id'] = 7
+    tab = [e for e in c2['steps'] if e['u'] == 'tab' and e['kind'] == 'function'][0]
+    tab['pf']['store'] = sorted(tab['pf']['store'] + ['d'])
+    traces += [cgood, c1, c2]
+    cases += [(5, 'corpus trace accepted as recorded', None, None), (6, 'module node yielded by no walk', 'WalkAst.missing', None),
+              (7, "function 'store' gains the default's name", 'Table.upper.store', None)]
+    verd = ctx.validate({'traces': traces}, module='ScopeTrace')
+    ok = True
+    for tid, what, clause, _ in cases:
+        bad = sorted({c for _, c, _ in verd[tid]['bad']})
+        good_ = (bad == []) if clause is None else (clause in bad)
+        ok &= good_
+        print(f'selftest {tid}: {what}: rejected clauses {bad} -> {"ok" if good_ else "UNEXPECTED"}')
+    return 0 if ok else 2
